@@ -609,6 +609,9 @@ def find_object_with_path(obj, lookup_list, rrel_tree, obj_cls=None, split_strin
     if isinstance(lookup_list, str):
         lookup_list = lookup_list.split(split_string)
         lookup_list = list(filter(lambda x: len(x) > 0, lookup_list))
+    elif not isinstance(lookup_list, (list, tuple)):
+        # a name that is no text (e.g. `name=INT`) is a single name part
+        lookup_list = [lookup_list]
     visited = [set() for _ in range(len(lookup_list) + 1)]
 
     def allowed(obj, lookup_list, e):
